@@ -50,7 +50,8 @@ def run(ck):
     _sync_rules(ck, m, meths)
 
     # ------------------------------------------------------------------ __setitem__
-    fn = meths["__setitem__"]
+    from sa.prenorm import inline_helpers
+    fn = inline_helpers(meths["__setitem__"], meths)
     res = Resolver(fn)
     cfg = CFG(fn)
     key_param = fn.args.args[1].arg
@@ -100,6 +101,11 @@ def run(ck):
         rev = kw.get("reverse")
         desc = isinstance(rev, ast.Constant) and rev.value is True
         src = CNT in over and ("items" in over)
+        if not src and over in (CNT, "%s.keys()" % CNT, "list(%s)" % CNT, "list(%s.keys())" % CNT, "viewkeys(%s)" % CNT) and k is not None:
+            # the same ranking over the keys, ordered by their count
+            src = True
+            by_count = norm(k) in ("%s.get" % CNT, "%s.__getitem__" % CNT) or \
+                (isinstance(k, ast.Lambda) and len(k.args.args) == 1 and norm(k.body) in ("%s[%s]" % (CNT, k.args.args[0].arg), "%s.get(%s)" % (CNT, k.args.args[0].arg)))
         ok_rank = by_count and desc and src
         why = "ranking %s: over counters=%s, by count=%s, most used first=%s" % (norm(rank), src, by_count, desc)
     ck.ob("R1", "BoundedDict.__setitem__:ranking", ok_rank, m.where(keep), why)
